@@ -142,11 +142,95 @@ def half_length_cases(rng, tier):
         else:
             yield Case("r.mul", [hx(m), hx(abs(a)), hx(abs(b))])
 
+def coprime_to(rng, bits, other):
+    import math
+    for _ in range(200):
+        v = rng.getrandbits(bits) | 1
+        if v > 1 and math.gcd(v, other) == 1:
+            return v
+    return 1
+
+def conjunct_cases(rng, tier):
+    """Tests of the form `len == 1 && word == 1` in the modular code, with inputs that satisfy exactly one
+    conjunct.  (1) div.rs inv_large decides "gcd == 1" from the gcd left in the residue buffer: `g_len == 1 &&
+    raw[0] == 1` (and `g == 1` on a Word / DoubleWord for 1- and 2-word residues) — gcds that are multi-word
+    with lowest word 1 (2^64+1, 3*2^64+1, 2^128+1, k*2^64+1, three words with low word 1; the 2^32 analogues
+    matter for 32-bit words) and gcds that are one word but not 1; m = g*m', a = g*a', gcd(a', m') = 1, m of
+    3..6 (and a few more) words, residue lengths 1, 2, 3.. words before/after removing the normalisation shift.
+    (2) mul.rs `na == 1 && nb == 1` / `na | nb == 0`: one operand one word and the other longer / zero.
+    (3) add.rs negate: "all words zero" with only the low word(s) zero."""
+    import math
+    reps = 6 if tier == "quick" else 60
+    W = 64
+    gs = []
+    for w in (64, 32):
+        B = 1 << w
+        gs += [B + 1, 3 * B + 1, B * B + 1, B * B + B + 1, (B - 1) * B + 1, B * B * B + 1,
+               (B * B * 5) + 1, (1 << (w * 2 - 1)) * B + 1]
+    for _ in range(reps):
+        gs.append((rng.getrandbits(rng.choice([3, 17, 63, 64, 100, 128])) | 1) * (1 << 64) + 1)
+        gs.append((rng.getrandbits(rng.choice([5, 31, 32, 40, 64])) | 1) * (1 << 32) + 1)
+        gs.append(rng.getrandbits(64) | (1 << 63) | 1)          # one word, not 1
+        gs.append(rng.choice([3, 5, 255, (1 << 32) + 1, (1 << 63) + 1, (1 << 64) - 1]))
+        gs.append(rng.getrandbits(128) | (1 << 127) | 1)        # two words, low word random
+    for g in gs:
+        for _ in range(2 if tier == "quick" else 6):
+            glen = (g.bit_length() + W - 1) // W
+            mwords = max(rng.choice([3, 3, 4, 5, 6, 6, 9, 17]), glen + 1)
+            mbits = max(mwords * W - rng.choice([0, 0, 1, 7, 31, 63]) - g.bit_length(), 2)
+            mp = coprime_to(rng, mbits, 1)
+            m = g * mp
+            # a' coprime to m', a = g*a' < m of a chosen length
+            abits = rng.choice([1, 2, 40, 64, 65, 128, 129, max(mbits - 1, 1)])
+            abits = min(abits, max(mbits - 1, 1))
+            ap = coprime_to(rng, abits, mp) if abits > 1 else 1
+            a = g * ap
+            big = a + m * rng.choice([0, 0, 1, -1, 1 << 70])
+            yield Case("m.inv", [hx(m), hx(big)])
+            yield Case("m.div", [hx(m), hx(operand(rng, m, tier)), hx(a)])
+            yield Case("r.inv", [hx(m), hx(a % m)])
+            yield Case("m.mix", ["div", hx(m), hx(m), hx(operand(rng, m, tier)), hx(a)])
+            # the same residue made invertible (control: both conjuncts hold)
+            yield Case("m.inv", [hx(m), hx(coprime_to(rng, max(a.bit_length(), 2), m))])
+    # residue length classes of inv_large before / after removing the normalisation shift
+    for _ in range(reps * 4):
+        k = rng.choice([1, 7, 31, 32, 63])
+        mwords = rng.choice([3, 4, 6])
+        m = rng.getrandbits(mwords * W - k) | (1 << (mwords * W - k - 1)) | 1
+        for lo, hi in [(W - k, W), (2 * W - k, 2 * W), (1, W - k), (W, 2 * W - k), (2 * W, 2 * W + 3)]:
+            a = rng.getrandbits(hi - lo) | (1 << (hi - lo - 1)) if hi - lo > 1 else 1
+            a = (a << lo) >> 1 if lo > 0 else a
+            a |= 1 << (rng.randrange(max(lo - 1, 0), hi))
+            a %= m
+            yield Case(rng.choice(["m.inv", "r.inv"]), [hx(m), hx(a)])
+            yield Case("m.div", [hx(m), hx(rng.getrandbits(200)), hx(a)])
+    # mul / sqr: operand word counts (0, k), (1, 1), (1, k), (k, 1) inside a multi-word ring; negate with zero low words
+    for _ in range(reps * 4):
+        mwords = rng.choice([3, 4, 5, 8, 16])
+        k = rng.choice([0, 0, 1, 13, 63])
+        m = rng.getrandbits(mwords * W - k) | (1 << (mwords * W - k - 1))
+        one = rng.choice([1, 2, (1 << (W - k)) - 1 if k < W - 1 else 1, rng.getrandbits(W - k) | 1])  # one word also after the shift
+        edge = rng.choice([1 << (W - k), (1 << (W - k)) - 1 if k else (1 << W) - 1, 1 << W])               # around the word boundary of the shifted residue
+        longv = rng.getrandbits(rng.choice([65, 128, (mwords - 1) * W])) | (1 << 64)
+        for x, y in [(0, longv), (longv, 0), (one, one), (one, longv), (longv, one), (edge, one), (one, edge), (0, 0)]:
+            yield Case("m.mul", [hx(m), hx(x % m), hx(y % m)])
+        yield Case("m.sqr", [hx(m), hx(one)])
+        yield Case("m.sqr", [hx(m), hx(edge % m)])
+        yield Case("r.mul", [hx(m), hx(one), hx(longv % m)])
+        z = (rng.getrandbits(rng.choice([1, 64, 100])) | 1) << rng.choice([64, 128, 64 - k if k else 64])
+        yield Case("m.neg", [hx(m), hx(z % m)])
+        yield Case("m.neg", [hx(m), hx(0)])
+        yield Case("m.neg", [hx(m), hx(m)])
+        yield Case("r.neg", [hx(m), hx(z % m)])
+        yield Case("m.sub", [hx(m), hx(0), hx(z % m)])
+
 def nontrivial(c):
     return c.args and len(c.args[1 if c.op == "m.mix" else 0]) > 16     # modulus above one word
 
 def generate(rng, tier):
     for c in half_length_cases(rng, tier):
+        yield c
+    for c in conjunct_cases(rng, tier):
         yield c
     n = 2200 if tier == "quick" else 60000
     for i in range(n):
@@ -216,14 +300,22 @@ REFINED = ["ConstDivisor::new (shift)", "ConstSingleDivisor::rem_word/rem_dword/
            "single::pow/double::pow (pow_word, pow_helper)", "large::pow / pow_nontrivial (windowed exponentiation, odd-power table, choose_pow_window_len)",
            "num-modular invm (mirrored extended Euclid)",
            "Reducer<UBig> for ConstDivisor: transform/check/add/dbl/sub/neg"]
-FRONTIER = ["num_modular Normalized2by1Divisor/3by2Divisor div_rem_{1by1,2by1,2by2,3by2,4by2} and dashu fast_rem_by_normalized_(d)word, "
-            "div_rem_in_place: contract parameters, modelled as exact %",
-            "mul::multiply / sqr::sqr on word slices: modelled as exact * (C01 frontier)",
-            "inv_large: gcd::gcd_ext_word/_dword/_in_place (Lehmer) specified by the mirrored invm (the inverse is unique mod m)"]
+FRONTIER = ["num_modular div_rem_2by1 / div_rem_4by2 at the mul/sqr/rem_word call sites of single- and double-word rings: DISCHARGED against "
+            "C02's mirrored Moeller-Granlund algorithms (preconditions proved, single_word_/double_word_division_contracts); the "
+            "remaining uses (rem_dword's two-step reduction, div_rem_3by2, fast_rem_by_normalized_(d)word, multi-word div_rem_in_place) "
+            "are modelled as exact % — their exactness is C02's div_by_word/dword_exact, burnikel_ziegler_exact, nm_div_rem_3by2_exact",
+            "mul::multiply / sqr::sqr on word slices: modelled as exact * (refined in C01)",
+            "inv_large: gcd::gcd_ext_word/_dword/_in_place (Lehmer) specified by the mirrored invm (the inverse is unique mod m). The kernels "
+            "themselves are now mirrored and proved in C12 (gcd_ext_spec, lehmer_gcd_ext_correct: g = gcd and modulus | g - raw*b); what keeps "
+            "inv_large from being a corollary is the range claim |b| < modulus (the debug_assert!(inv.is_valid(ring))), not yet a theorem"]
 RULE = ("moduli from {1, 2^k, odd/even single word, double word with/without normalisation shift, 3..70 words with aligned/unaligned "
         "top word, all-ones / 100..0 / low-words-zero patterns} x operands of any sign and size (reduced, multiples of m, m+-1, "
         "size-class boundaries, up to 140 words) x exponents 0..3 words incl. long zero runs x ops {reduce, + - * / neg dbl sqr pow inv eq, "
         "mixing two ConstDivisor instances, the num_modular::Reducer impl}; a dedicated stream for the no-division branch of mul/sqr_normalized "
+        "a stream for conjunctive tests (`len == 1 && word == 1` style) with exactly one conjunct true: inv/div/Reducer::inv with m = g*m', a = g*a', "
+        "gcd(a', m') = 1 and g multi-word with lowest word 1 (2^64+1, 3*2^64+1, 2^128+1, k*2^64+1, three words; the 2^32 analogues) or one word != 1, "
+        "m of 3..17 words, residues of 1/2/>=3 words before and after removing the normalisation shift; mul/sqr with operand word counts (0,k),(1,1),(1,k),(k,1); "
+        "negation of residues whose low words are zero; "
         "(moduli of exactly 2..16 words with 0..63 leading zero bits x operands of exactly n/2, n/2+-1 words, all-ones / 2^k-small / "
         "around sqrt(m), through sqr, mul (equal and different operands), pow with small exponents); non-invertible elements by construction (multiples of a "
         "factor of m); sums/doubles that hit exactly m. Non-trivial := modulus above one word; distinct := distinct (op,args) lines.")
@@ -243,5 +335,5 @@ LEVEL_NOTE = ("Trusted: Lean kernel; axioms propext/Classical.choice/Quot.sound;
 TECHNIQUE = "Lean 4 refinement proofs (value-level model of the pre-shifted residue representation) + differential correspondence model vs real code"
 THEOREMS = ["Dashu.Props.C13." + t for t in ["new_spec", "reduce_spec", "ops_closed", "hom_add", "hom_sub", "hom_mul", "hom_neg", "hom_dbl",
             "hom_sqr", "hom_pow", "inv_spec", "div_spec", "different_rings",
-            "different_instances_same_modulus", "reducer_ops", "one_asIs_counterexample", "reducer_add_asIs_counterexample"]]
+            "different_instances_same_modulus", "single_word_division_contracts", "double_word_division_contracts", "reducer_ops", "one_asIs_counterexample", "reducer_add_asIs_counterexample"]]
 READY = True
